@@ -6,6 +6,14 @@
 // back into neutral structs (stepgen.FromGolib …) and compared field by field with the
 // canonical form of what was written (stepgen.Canon / TxCanon: sections whose presence
 // condition did not hold are zero; error level 0 → warning when an error id is present).
+//
+// Result ownership (ledger.go): every byte slice an encoder returns is held as returned next
+// to a private copy and compared again after every later encode / decode of the case and at
+// its end (keys <Func>:result-altered-later). Histories with several live objects
+// (history.go): several packs / records are filled first and only then written and decoded,
+// sequentially, on several goroutines, and under the race detector (keys
+// <Pack>.<Field>:not-restored/after-later-encode, <Step>:decoded-altered-later,
+// <Func>:later-encode-depends-on-returned-slice).
 package main
 
 import (
